@@ -657,6 +657,84 @@ fn repr_event_case(rng: &mut Rng) -> Vec<Op> {
     ops
 }
 
+/// a large index (> 128 live entries: the HNSW path) with exact distance ties among the
+/// nearest nodes, several of which were UPDATED (the append-only HNSW graph then holds two or
+/// three points for them): filler far from the query, a few nodes carrying "tie" vectors, and
+/// nodes created nearer to the query and then re-embedded — some to a vector another node
+/// already carries, some to a different vector with the same declared distance (equal cosine,
+/// equal dot product, equal L2).  Searched with several k.  Oracle = what C29 states for the
+/// approximate path (live, current score, each node at most once, ranked); recall is not asserted.
+fn tie_case(rng: &mut Rng, metric: char) -> Vec<Op> {
+    // everything is written for the query direction e0 and then rotated onto a random axis
+    let axis = rng.usize(3);
+    let rot = |v: [i32; 3]| -> Vec<i32> { (0..3).map(|i| v[(i + 3 - axis) % 3]).collect() };
+    let q = rot([1, 0, 0]);
+    // vectors with one and the same declared distance to the query ...
+    let ties: Vec<[i32; 3]> = match metric {
+        // identical embeddings (bit-identical cosine) plus one more direction with the same angle
+        'c' => vec![[4, 3, 0], [4, 3, 0], [4, 3, 0], [4, 0, 3], [4, 0, -3]],
+        // equal dot product with the query, different directions
+        'i' => vec![[3, 2, 0], [3, 0, -2], [3, 4, 1], [3, -1, -1], [3, 0, 0], [3, 2, 0]],
+        // equal L2 distance (squared distance 5)
+        _ => vec![[2, 2, 0], [0, 2, 0], [2, 0, -2], [1, 1, 2], [1, -2, 1], [2, 2, 0]],
+    };
+    // ... and vectors strictly nearer than the ties (where the updated nodes start)
+    let near: Vec<[i32; 3]> = match metric {
+        'c' => vec![[4, 1, 0], [4, 0, 1], [4, 0, 0], [4, -1, 0], [4, 1, 1]],
+        'i' => vec![[4, 0, 0], [4, 1, 0], [4, 0, 2], [4, -1, 1], [4, 2, 2]],
+        _ => vec![[1, 1, 0], [1, 0, 1], [2, 0, 0], [1, 0, -1], [1, -1, 0]],
+    };
+    let mut ops = vec![];
+    let at_start = rng.chance(1, 2);
+    if at_start {
+        ops.push(Op::MkIndex(3, metric));
+    }
+    let mut next = 0usize;
+    // filler, far from the query under every metric (negative component along the query)
+    let spread = if rng.chance(1, 4) { 170 } else { 40 };
+    let n_fill = 130 + rng.usize(spread);
+    for _ in 0..n_fill {
+        let f = [-(2 + rng.usize(3) as i32), rng.range(-4, 4) as i32, rng.range(-4, 4) as i32];
+        ops.push(Op::Create(true, Some((rot(f), *rng.pick(&['f', 'i', 'x'])))));
+        next += 1;
+    }
+    // nodes that carry a tie vector from the start
+    let n_b = 2 + rng.usize(3);
+    for _ in 0..n_b {
+        ops.push(Op::Create(true, Some((rot(*rng.pick(&ties)), rand_repr(rng)))));
+        next += 1;
+    }
+    // nodes created nearer, to be re-embedded
+    let n_a = 2 + rng.usize(4);
+    let a0 = next;
+    for _ in 0..n_a {
+        ops.push(Op::Create(true, Some((rot(*rng.pick(&near)), rand_repr(rng)))));
+        next += 1;
+    }
+    if !at_start {
+        ops.push(Op::MkIndex(3, metric));
+    }
+    ops.push(Op::Query(n_a + n_b, q.clone()));
+    for h in a0..a0 + n_a {
+        ops.push(Op::SetVec(h, VV::Vec(rot(*rng.pick(&ties)), rand_repr(rng))));
+        if rng.chance(1, 4) {
+            // a third point for the same node
+            ops.push(Op::SetVec(h, VV::Vec(rot(*rng.pick(&ties)), rand_repr(rng))));
+        }
+    }
+    for k in [n_a + n_b, 10, 3, 20, n_a] {
+        ops.push(Op::Query(k, q.clone()));
+    }
+    if rng.chance(1, 2) {
+        // one of the tie carriers goes away; an updated node moves back near
+        ops.push(Op::Delete(n_fill));
+        ops.push(Op::SetVec(a0, VV::Vec(rot(*rng.pick(&near)), rand_repr(rng))));
+        ops.push(Op::Query(10, q.clone()));
+        ops.push(Op::Query(n_a + n_b + 2, q));
+    }
+    ops
+}
+
 /// more than 128 indexed nodes: the HNSW regime, with updates and deletes, and back below
 fn big_case(rng: &mut Rng) -> Vec<Op> {
     let dim = 3 + rng.usize(2);
@@ -744,7 +822,8 @@ fn main() {
             "all histories of length <= {} (handles addressed only once handed out) over 19 letters (index declaration, 4 creates, \
              per handle: 2 vector updates, null, REMOVE n.v, SET/REMOVE n:L, DELETE; 2 handles), for a cosine, an l2 and an inner-product index and four pairings of embedding representations, \
              with a query after every statement; plus PRNG histories (embeddings written as float / integer / mixed list literals, list expressions, parameters, or \
-             PropertyValue::Vector through the store API), representation x bookkeeping-event batteries, ranking batteries (every metric, k below/at/above the candidate count) \
+             PropertyValue::Vector through the store API), representation x bookkeeping-event batteries, large-index-with-ties batteries (> 128 entries, updated nodes tied \
+             with other nodes on the exact distance, every metric), ranking batteries (every metric, k below/at/above the candidate count) \
              and >128-entry cases (not exhaustive)",
             l
         );
@@ -760,6 +839,11 @@ fn main() {
         let n_repr = if args.thorough() { 25_000 } else { 1_000 };
         for _ in 0..n_repr {
             cases.push(repr_event_case(&mut rng));
+        }
+        // large index with exact ties among updated nodes, each metric in turn
+        let n_tie = if args.thorough() { 120 } else { 12 };
+        for i in 0..n_tie {
+            cases.push(tie_case(&mut rng, ['c', 'i', 'l'][i % 3]));
         }
         let n_big = if args.thorough() { 150 } else { 5 };
         for _ in 0..n_big {
